@@ -120,8 +120,11 @@ def indexOf? (l : List Nat) (x : Nat) : Option Nat :=
   go l 0
 
 partial def hintOf (cfg : KillCfg) (touched : List Nat) (v : View) : Nat :=
-  if descends cfg v then (v.children.map (hintOf cfg touched)).foldl min 1000000
-  else (indexOf? touched v.id).getD 1000000
+  -- (a cgroup that is descended into on the tick it is ranked can be attempted itself on a later tick of the same kill cycle,
+  -- when its children are gone by the time the serialised stack is resumed: its own position in the trace counts too)
+  let own := (indexOf? touched v.id).getD 1000000
+  if descends cfg v then (v.children.map (hintOf cfg touched)).foldl min own
+  else own
 
 def rankHint (cfg : KillCfg) (touched : List Nat) (rev : Bool) (l : List View) : List View :=
   let el := l.filter (·.info.eligible)
